@@ -584,8 +584,107 @@ func genF13(r *hlib.Rand, emit func(string, ...any)) {
 	emitBatch(r, emit, b, false)
 }
 
+// genBoundary aims one clean, uninterrupted chain at a size limit of the coalescers: total superpacket
+// bytes within a few bytes (or within +-64) of 65535 minus nothing / the transport header / the IP header /
+// both headers, for IPv4 and IPv6, UDP and TCP with 0..40 option bytes, through several (n, segLen)
+// factorizations (n full segments plus a short tail that makes the sum exact); the 64-segment limit +-2
+// with segment sizes that also approach the byte limit; and single packets around the seed limit.
+// A change of any of these guards by a few bytes only shows on chains like these.
+func genBoundary(r *hlib.Rand, emit func(string, ...any)) {
+	f := newFlow(r, false)
+	f.clean = true
+	f.otherProto = 0
+	f.epoch = 1
+	f.idMode = 0
+	f.tcp = r.Bool()
+	f.opts = nil
+	l4 := 8
+	if f.tcp {
+		optLen := hlib.Pick(r, 0, 0, 4, 8, 12, 20, 36, 40)
+		f.opts = make([]byte, optLen)
+		for i := range f.opts {
+			f.opts[i] = 1
+		}
+		l4 = 20 + optLen
+	}
+	ipHdr := 20
+	if f.v6 {
+		ipHdr = 40
+	}
+	hdr := ipHdr + l4
+	var sizes []int
+	switch m := r.Intn(10); {
+	case m < 7: // byte limit
+		x := hlib.Pick(r, hdr, hdr, hdr, 0, l4, ipHdr)
+		// around the reference: +-3 exactly, anywhere within +-64, or inside the header-sized zones next to it
+		// (a guard that forgets / double-counts one of the headers moves the limit by that header's size)
+		d := r.Range(-3, 3)
+		switch r.Intn(4) {
+		case 0:
+			d = r.Range(-64, 64)
+		case 1:
+			d = r.Range(1, hlib.Pick(r, l4, ipHdr, hdr))
+		case 2:
+			d = -r.Range(0, hlib.Pick(r, l4, ipHdr, hdr))
+		}
+		total := 65535 - x + d
+		n := hlib.Pick(r, 2, 2, 3, 5, 7, 16, 32, 45, 46, 50, 63, 64, r.Range(2, 64))
+		if r.Chance(1, 3) { // realistic segment sizes: as many full segments as fit, exact tail
+			n = total / hlib.Pick(r, 1024, 1310, 1400, 1424, 1448, 1460, 2000, 4096, 8192, 9000, 16384, 32750)
+		}
+		seg := total / n
+		for i := 0; i < n; i++ {
+			sizes = append(sizes, seg)
+		}
+		if rem := total - n*seg; rem > 0 {
+			sizes = append(sizes, rem)
+		}
+		switch r.Intn(4) {
+		case 0:
+			sizes = append(sizes, seg, hlib.Pick(r, 1, seg/2+1))
+		case 1:
+			sizes = append(sizes, hlib.Pick(r, 1, 19, 20, 21, 39, 40, 41, 59, 60, 61))
+		}
+	case m < 9: // segment-count limit, alone and together with the byte limit
+		n := hlib.Pick(r, 62, 63, 64, 65, 66)
+		seg := hlib.Pick(r, 1, 2, 8, 100, 1000, 1021, 1022, 1023, 1024, (65535-hdr)/64, (65535-hdr)/64+1, (65535-ipHdr)/64, 65535/64)
+		for i := 0; i < n; i++ {
+			sizes = append(sizes, seg)
+		}
+		if r.Bool() {
+			sizes = append(sizes, hlib.Pick(r, 1, seg))
+		}
+	default: // a single packet around the seed limit, then small same-flow packets
+		sizes = []int{65535 - hdr + hlib.Pick(r, -2, -1, 0, 1, 2, 3, l4, ipHdr, hdr), 7, 7}
+	}
+	emit("reset 1 1")
+	var b []staged
+	for i, sz := range sizes {
+		if sz < 0 {
+			sz = 0
+		}
+		ps := pktSpec{f: f, payLen: sz, flags: 0x10, opts: f.opts}
+		if f.ece {
+			ps.flags |= 0x40
+		}
+		b = append(b, staged{pkt: build(r, ps), epoch: 1, counter: uint64(i + 1)})
+	}
+	if len(b) > 2 && r.Chance(1, 4) {
+		i := r.Intn(len(b) - 1)
+		b[i], b[i+1] = b[i+1], b[i]
+	}
+	emitBatch(r, emit, b, false)
+}
+
 func gen(r *hlib.Rand, n int, tier, profile string, emit func(string, ...any)) {
 	genF13(r, emit)
+	nb := 40
+	if tier == "thorough" {
+		nb = n / 8
+	}
+	for i := 0; i < nb; i++ {
+		genBoundary(r, emit)
+	}
 	for i := 0; i < n; i++ {
 		tso, uso := !r.Chance(1, 20), !r.Chance(1, 20)
 		emit("reset %s %s", hlib.B(tso), hlib.B(uso))
